@@ -36,7 +36,7 @@ def _specs() -> Dict[str, Dict[str, Any]]:
             "id": pid, "stream": "loader", "profile": loader, "props": [pid], "level": "exploration",
             "batches": [
                 {"name": "fault-free", "args": {"faulty": False}, "runs": {"quick": 160, "thorough": 30000}},
-                {"name": "faults", "args": {"faulty": True}, "runs": {"quick": 80, "thorough": 15000}},
+                {"name": "faults", "args": {"faulty": True}, "runs": {"quick": 160, "thorough": 15000}},
                 {"name": "hugevocab", "args": {"faulty": False, "overrides": dict(symtab_huge)},
                  "runs": {"quick": 1 if pid == "C01" else 0, "thorough": 8 if pid == "C01" else 0}},
                 # one rank with more than 32,768 launches (host calls with a correlation id) under one operator
@@ -104,6 +104,9 @@ def _specs() -> Dict[str, Dict[str, Any]]:
              "runs": {"quick": 2 * 128, "thorough": 100 * 128}},
             {"name": "enum-restore", "args": {"kind": "c19", "enum": "restore"}, "slots": 32,
              "runs": {"quick": 2 * 32, "thorough": 100 * 32}},
+            # two faults in one history: a re-save into the same directory fails before it touches the archive,
+            # later one stored byte inside a member of the surviving archive is flipped
+            {"name": "double", "args": {"kind": "c19", "double": True}, "runs": {"quick": 60, "thorough": 6000}},
         ],
         "rule": ("one evaluation = one simulated run: analysis in session A, then 1-4 save / restore cycles in which each "
                  "restore happens in the same session, in a new interpreter under the same zygote, or in a new interpreter "
